@@ -22,7 +22,7 @@ func TestVerif(t *testing.T) {
 		Level: "model_checking",
 		Rule: "(a) every DAG of the exhaustive family U(n) x every root x every link-closed destination subset x Concurrency x API variant under the default schedule; " +
 			"(b) every curated collision shape (plus 'urls-layer': an ordinary layer whose descriptor lists mirror URLs next to a foreign layer; 'index-with-blob': an index that lists a non-manifest entry next to a manifest) x pre-population x Concurrency under every schedule within the deviation bound of three base schedulers, " +
-			"including CopyGraph into a destination that can mount blobs (mounted or copied after all is an input choice per blob and candidate repository; candidate lists: none, one, two, one twice, one and a blank), Copy with MapRoot / target-platform selection, and Copy into a destination that already holds the graph and whose destination reference already names another manifest of it (the unmapped root, or a manifest below the root); " +
+			"including Copy with the root named by its digest and a blank destination reference (MapRoot / target platform), CopyGraph into a destination that can mount blobs (mounted or copied after all is an input choice per blob and candidate repository; candidate lists: none, one, two, one twice, one and a blank), Copy with MapRoot / target-platform selection, and Copy into a destination that already holds the graph and whose destination reference already names another manifest of it (the unmapped root, or a manifest below the root); " +
 			"(c') an index over two manifests whose layers carry the same title and different bytes, into memory, OCI and file destinations (the file store may refuse; success is judged); (c) curated shapes x ordered pairs of store kinds (memory, OCI layout, file, remote via Referrers API, remote via tag schema). Oracle: generator's own edge list. " +
 			"non-trivial = distinct (shape, root, pre-population, variant) scenario in which at least one node was actually transferred",
 		Assumptions: []string{
@@ -45,6 +45,7 @@ type scen struct {
 	src, dst string // store kinds
 	pretag   int    // 1+id of the node the destination reference points at before the call (0: not tagged)
 	mayFail  bool   // the destination may legitimately refuse the graph: only a reported success is judged
+	byDigest bool   // the source reference is the root's digest string (and the destination reference is left blank)
 }
 
 // family is the curated family plus the shapes only this harness adds.
@@ -54,6 +55,9 @@ func (s scen) name() string {
 	nm := fmt.Sprintf("%s/root=%s/prep=%v/conc=%d/%s/%s->%s", s.d.Name, s.d.Nodes[s.root].Name, s.prepop, s.conc, s.api, s.src, s.dst)
 	if s.pretag > 0 {
 		nm += "/dst-ref-was=" + s.d.Nodes[s.pretag-1].Name
+	}
+	if s.byDigest {
+		nm += "/source-reference-is-a-digest"
 	}
 	return nm
 }
@@ -170,6 +174,10 @@ func jobs(tier string) []driver.Job {
 							s.prepop = d.Closure(r, true)
 						}
 						out = append(out, schedJob(s, explore.Bounds{Dev: 1}, []int{0}, 0, 1))
+						// the same with the root named by its digest and the destination reference left blank
+						sd := s
+						sd.byDigest = true
+						out = append(out, schedJob(sd, explore.Bounds{Dev: 1}, []int{0}, 0, 1))
 						if len(prep) > 0 {
 							// the destination reference already names the unmapped root, or another manifest below it
 							s.pretag = r + 1
@@ -302,6 +310,14 @@ func (s scen) make(transferred *bool) (func(), func(*vs.Result) *driver.Fail) {
 	}
 	wantRoot := s.root
 	dstRef := "ref"
+	srcRef := "ref"
+	if s.byDigest {
+		srcRef = rootDesc.Digest.String()
+		dstRef = srcRef
+		if err := srcS.Tag(context.Background(), rootDesc, srcRef); err != nil {
+			panic(err)
+		}
+	}
 	expectErr := false
 	switch s.api {
 	case "copyref":
@@ -366,7 +382,7 @@ func (s scen) make(transferred *bool) (func(), func(*vs.Result) *driver.Fail) {
 		} else if s.api == "graph" || strings.HasPrefix(s.api, "graph-mount") {
 			err = oras.CopyGraph(context.Background(), src, dst, rootDesc, opts.CopyGraphOptions)
 		} else {
-			got, err = oras.Copy(context.Background(), src, "ref", dst, map[bool]string{true: "other", false: ""}[s.api == "copyref"], opts)
+			got, err = oras.Copy(context.Background(), src, srcRef, dst, map[bool]string{true: "other", false: ""}[s.api == "copyref"], opts)
 		}
 	}
 	check := func(res *vs.Result) *driver.Fail {
